@@ -169,3 +169,23 @@ class NodeSetData(Contract):
                    S.events_are(s, S.expected_calls(p["wcbs0"], (), kw)))
 
     ensures = {"store-exact_callbacks-told_refused-unchanged": lambda s: NodeSetData.ok(s)}
+
+
+@contract
+class NodeSetDataLengths(NodeSetData):
+    """the same contract for every numeric type crossed with every payload of 0..9 bytes of concrete length (the
+    symbolic-length family of NodeSetData cannot follow code that inspects individual surplus bytes)"""
+    id = "NodeSetDataLengths"
+    cases = {"%s/%d-bytes" % (t, n): (TYPES[t], n) for t in TYPES if TYPES[t][3] for n in range(0, 10)}
+    exits = ("raise:SdoAbortedError",)      # (a wrong length never returns; a matching one also does)
+
+    def setup(self, w, case):
+        tcase, n = case
+        node = mk_node(w, tcase, 0)
+        chk = w.bool("check_writable")
+        data = w.bytes("data", n, mutable=True)
+        had = stored(_S(w), w.pre["store"], w.pre["index"], w.pre["sub"]) if not w.native else None
+        w.pre.update(chk=chk, data=data, had=had)
+        return Call(("method", node, "set_data"), [w.pre["index"], w.pre["sub"], data], {"check_writable": chk})
+
+    ensures = {"store-exact_callbacks-told_refused-unchanged": lambda s: NodeSetData.ok(s)}
